@@ -330,6 +330,85 @@ def r3_stripped_length(ctx, configs, rule_id='C10.R3'):
                 r.ok(q, site, 'fixed size; returned length used %d time(s)' % uses, file=f['file'], line=f['line'])
 
 
+def r6_counter_limit(ctx, configs):
+    """AES-CTR with an m-bit counter is only correct up to the block where the counter wraps: past it the library (OpenSSL/Botan increment all 128 bits) would carry into the nonce and
+    produce a key stream no other implementation produces.  The back ends therefore install a byte limit at Init.  Decided: the limit is installed for EVERY counter width 1..128
+    (the value stored for width 0, 'no limit', is never what a positive width ends with)."""
+    r = ctx.rule('C10.R6', 'the CTR counter-exhaustion limit is installed for every counter width', floor=8, engine='E2 finite-domain evaluation, self-calibrated on width 0')
+    WIDTHS = (1, 31, 32, 63, 64, 65, 127, 128)
+    for cname, prog in configs:
+        fns = []
+        for g in prog.functions.values():
+            if not (g.get('class') or '').endswith('SymmetricAlgorithm') or 'counterBits' not in [pp['var']['name'] for pp in g['params'] if pp.get('var')]:
+                continue
+            w = [n for n in walk(g['body']) if (n.get('k') == 'Assign' and canon(n['a']).split('->')[-1] == 'maximumBytes') or
+                 (n.get('k') == 'Call' and (n.get('callee') or '').endswith('operator=') and n.get('recv') is not None and canon(n['recv']).split('->')[-1] == 'maximumBytes')]
+            if w:
+                fns.append(g)
+        if not fns:
+            r.undecided(cname, 'limit', 'no function with a counterBits parameter assigns maximumBytes', file='', line=0)
+        for g in sorted(fns, key=lambda g: (g['file'], g['line'])):
+            ctx.analysed(g)
+
+            def last_values(width):
+                from engine.interp import St
+                o = Outcomes(g, prog, cenv={}, record_calls={'operator=', 'flip_sign'})
+                o.CAP = 64
+                o.LOOP_ROUNDS = 1
+                o.go(init=St(env={'counterBits': str(width)}))      # the width on entry; the bit-reversal loop counts the variable down
+                r.paths += len(o.outcomes)
+                vals = set()
+                for oc in o.outcomes:
+                    if oc['retv'] == 0 or oc['ret'] == 'false':
+                        continue
+                    ws = [e for e in oc['events'] if (e[0] == 'write' and e[1].split('->')[-1] == 'maximumBytes') or (e[0] == 'call' and e[1] == 'operator=' and e[2] and e[2][0].split('->')[-1] == 'maximumBytes')]
+                    if ws:
+                        e = ws[-1]
+                        vals.add((str(e[2]) if e[0] == 'write' else str(e[2][1:]), e[3]))
+                return vals
+            marker = {v for v, _ in last_values(0)}
+            if not marker:
+                r.undecided(g['qname'], 'width 0', 'cannot see what is stored as "no limit"', file=g['file'], line=g['line'])
+                continue
+            for wd in WIDTHS:
+                site = '%s width %d' % (cname, wd)
+                vals = last_values(wd)
+                bad = [(v, l) for v, l in vals if v in marker]
+                if not vals:
+                    r.undecided(g['qname'], site, 'no completing path writes maximumBytes', file=g['file'], line=g['line'])
+                elif bad:
+                    r.violation(g['qname'], site, 'with a %d-bit counter the function ends with maximumBytes = %s (line %s), the value that means "no limit": data beyond the wrap of the counter is accepted and the increment carries into the nonce'
+                                % (wd, bad[0][0], bad[0][1]), file=g['file'], line=bad[0][1])
+                else:
+                    r.ok(g['qname'], site, 'limit installed (line %s)' % sorted(vals)[0][1], file=g['file'], line=sorted(vals)[0][1])
+
+
+RAW_PUBLIC_SIZES = {32: 'X25519 (RFC 7748)', 56: 'X448 (RFC 7748)', 65: 'P-256 uncompressed point (SEC 1)', 97: 'P-384 uncompressed point', 133: 'P-521 uncompressed point'}
+
+
+def r7_raw_peer_keys(ctx, prog):
+    """CKM_ECDH1_DERIVE accepts the peer's public value raw or DER-wrapped and has to guess which.  For the sizes a raw value of a supported curve has, the guess must not depend on
+    the key bytes: a raw key that happens to start like a DER OCTET STRING (04 <len>) would otherwise be unwrapped and the derivation fails or yields another secret."""
+    r = ctx.rule('C10.R7', 'a peer public value with the raw size of a supported curve is always taken as raw', floor=5, engine='E2 finite-domain evaluation against the curve size table')
+    f = prog.fn('SoftHSM::getECDHPubData')
+    ctx.analysed(f)
+    pn = param_name(f, 0)
+    for ln, what in sorted(RAW_PUBLIC_SIZES.items()):
+        o = Outcomes(f, prog, cenv={'size(%s)' % pn: ln}, record_calls={'raw2Octet'})
+        o.CAP = 64
+        o.go()
+        r.paths += len(o.outcomes)
+        site = '%d bytes: %s' % (ln, what)
+        bad = [oc for oc in o.outcomes if not any(e[0] == 'call' and e[1] == 'raw2Octet' for e in oc['events'])]
+        if not o.outcomes:
+            r.undecided(f['qname'], site, 'no path', file=f['file'], line=f['line'])
+        elif bad:
+            r.violation(f['qname'], site, 'a %d-byte value is handed on as if it were DER on a path that depends on its first bytes: a raw %s key starting 04 %02x.. is mis-read' % (ln, what.split(' ')[0], ln - 2),
+                        file=f['file'], line=bad[0]['line'], path=bad[0]['path'])
+        else:
+            r.ok(f['qname'], site, '%d paths, all wrap the raw value' % len(o.outcomes), file=f['file'], line=f['line'])
+
+
 def run(ctx):
     ossl = ctx.prog('ossl-file')
     botan = ctx.prog('botan-file')
@@ -339,9 +418,15 @@ def run(ctx):
     r3_stripped_length(ctx, configs)
     from rules import c06
     c06.r6_read_diamond(ctx, ossl, rule_id='C10.R4')
+    from rules import c13
+    c13.r4_truncation(ctx, ossl, rule_id='C10.R5')
+    r6_counter_limit(ctx, configs)
+    r7_raw_peer_keys(ctx, ossl)
 
 
 MUTANTS = [
+    dict(name='botan-ctr-limit-only-narrow-counters', rule='C10.R6', config='botan-file', file='src/lib/crypto/BotanSymmetricAlgorithm.cpp', after='bool BotanSymmetricAlgorithm::decryptInit(',
+         old='\tif (counterBits > 0)\n', new='\tif (counterBits > 0 && counterBits <= 64)\n'),
     dict(name='gcm-tag-only-shortcut', rule='C10.R1', file='src/lib/crypto/OSSLEVPSymmetricAlgorithm.cpp', after='bool OSSLEVPSymmetricAlgorithm::decryptFinal(',
          old='\t\t// Prepare the output block\n\t\tdata.resize(aeadBuffer.size() - tagBytes + getBlockSize());', new='\t\tif (aeadBuffer.size() == tagBytes)\n\t\t{\n\t\t\tclean();\n\t\t\treturn true;\n\t\t}\n\t\tdata.resize(aeadBuffer.size() - tagBytes + getBlockSize());'),
     dict(name='hmac-verify-length-only', rule='C10.R1', file='src/lib/crypto/OSSLEVPMacAlgorithm.cpp', after='bool OSSLEVPMacAlgorithm::verifyFinal(',
